@@ -23,6 +23,8 @@
 #include <babylon/anyflow/builder.h>
 
 #include <algorithm>
+#include <csignal>
+#include <unistd.h>
 #include <cstdio>
 #include <cstdlib>
 #include <cstring>
@@ -506,7 +508,11 @@ static void run_graph(uint64_t seed, const std::string& mode) {
       if (rc.inflight != 0) vrt_event("ORACLE wait-early wait() returned while %d processors are still running", rc.inflight);
       rc.waited = true;
       for (auto& t : injectors) t.join();
-      for (auto& t : rc.helpers) t.join();
+      for (size_t i = 0; i < rc.helpers.size(); ++i) {   // (mode inject: a late cascade may still append helpers)
+        std::thread t = std::move(rc.helpers[i]);
+        t.join();
+      }
+      rc.helpers.clear();
       // oracle on the outcome
       bool expect_ok = !ref.failed;
       if (!racing) {
@@ -728,7 +734,22 @@ static void run_dep(uint64_t seed) {
   fflush(stdout);
 }
 
+// A crash inside the controlled section: print what the run did so far, so that the check can tell the known
+// consequence of a closure flushed twice (two concurrent Promise::set_value on `_flushed`, finding
+// oracle:inject:dup-flush: a vertex closure was created after the vertex count had returned to 0) from anything else.
+static void on_crash(int sig) {
+  std::string t = vrt_trace();
+  fputs(t.c_str(), stdout);
+  if (t.find(" rmw add ctx.wvn acqrel 0 1\n") != std::string::npos)
+    printf("0 ev ORACLE dup-flush signal %d after a vertex closure was created on a closure whose vertex count had returned to 0\n", sig);
+  printf("0 ev CRASH signal %d\nEND\n", sig);
+  fflush(stdout);
+  _exit(128 + sig);
+}
+
 int main(int argc, char** argv) {
+  signal(SIGSEGV, on_crash);
+  signal(SIGABRT, on_crash);
   std::string mode = argc > 1 ? argv[1] : "graph";
   uint64_t seed0 = argc > 2 ? strtoull(argv[2], 0, 10) : 1;
   int nruns = argc > 3 ? atoi(argv[3]) : 1;
